@@ -71,6 +71,19 @@ func genC08(seed int64, tier string) *Scenario {
 			exists[n] = true
 		}
 	}
+	if r.Intn(5) == 0 {
+		// luahelper.json project mode: one or two entry files; what they require is analysed by the
+		// project (second) pass, everything else by the scattered-files (third) pass, and a module
+		// may feed both
+		entries := []string{names[r.Intn(len(names))]}
+		if r.Intn(2) == 0 {
+			entries = append(entries, names[r.Intn(len(names))])
+		}
+		cfg := map[string]interface{}{"BaseDir": "./", "ShowWarnFlag": 1, "ProjectFiles": entries}
+		b, _ := json.Marshal(cfg)
+		sc.Files = append(sc.Files, File{Path: "luahelper.json", Data: Bytes(b)})
+		sc.Knobs["project"] = entries
+	}
 	// a second workspace root that comes and goes (didChangeWorkspaceFolders) during the history
 	ws2 := r.Intn(5) == 0
 	ws2In := false
